@@ -413,3 +413,656 @@ def branch_of(mod: Module, node: ast.AST, stop: ast.AST) -> Iterator[tuple[ast.A
         if p is stop:
             return
         child = p
+
+
+# ======================================================================================================================
+# third layer (rules o-w of checks/c20.py): string templates, text tails, annotation alternatives, identity guards
+# ======================================================================================================================
+
+_PLACEHOLDER = re.compile(r"%(?:\([^)]*\))?[#0\- +]*\d*(?:\.\d+)?[sdrfia]")
+
+
+def is_docstring(mod: Module, node: ast.AST) -> bool:
+    """a string constant that is an expression statement of its own (docstring / bare string)"""
+    return isinstance(mod.parent.get(id(node)), ast.Expr)
+
+
+def templates(mod: Module, fn: ast.AST) -> Iterator[tuple[ast.AST, str, Optional[list[ast.expr]]]]:
+    """(node, template text with every dynamic part written as %s, argument expressions or None when they are not
+    known) for every piece of text a function builds from a constant: a plain constant, `const % args`, an f-string."""
+    for n in own_nodes(fn, include_nested=True):
+        if isinstance(n, ast.JoinedStr):
+            text, args = "", []
+            for v in n.values:
+                if isinstance(v, ast.Constant):
+                    text += str(v.value).replace("%", "%%")
+                elif isinstance(v, ast.FormattedValue):
+                    text += "%s"
+                    args.append(v.value)
+            yield n, text, args
+        elif isinstance(n, ast.Constant) and isinstance(n.value, str) and not is_docstring(mod, n):
+            par = mod.parent.get(id(n))
+            if isinstance(par, (ast.JoinedStr, ast.FormattedValue)):
+                continue
+            if isinstance(par, ast.BinOp) and isinstance(par.op, ast.Mod) and par.left is n:
+                r = par.right
+                if isinstance(r, ast.Tuple):
+                    yield par, n.value, list(r.elts)
+                elif isinstance(r, ast.Dict):
+                    yield par, n.value, [v for v in r.values if v is not None]
+                else:
+                    # a name bound to a tuple display: its elements, else the one value
+                    ds = local_defs(fn).get(r.id, []) if isinstance(r, ast.Name) else []
+                    if len(ds) == 1 and isinstance(ds[0][1], ast.Tuple):
+                        yield par, n.value, list(ds[0][1].elts)
+                    else:
+                        yield par, n.value, [r]
+            else:
+                yield n, n.value, None if _PLACEHOLDER.search(n.value) else []
+
+
+def placeholders(text: str) -> list[tuple[int, int]]:
+    """spans of the %-conversions of a template"""
+    return [m.span() for m in _PLACEHOLDER.finditer(text)]
+
+
+def calls_name(nodes: Iterable[ast.AST], names: set[str]) -> bool:
+    return any(isinstance(x, ast.Call) and ((isinstance(x.func, ast.Name) and x.func.id in names) or (isinstance(x.func, ast.Attribute) and x.func.attr in names))
+               for x in nodes)
+
+
+def callee_of(call: ast.Call, fn: ast.AST, mod: Module) -> Optional[tuple[ast.FunctionDef, bool]]:
+    """(function, called as a bound method) for a call that can only run one function of the module: `self.m(..)` / `cls.m(..)`
+    resolved from the class of fn upwards, or a module-level function called by its name (not shadowed by a local)"""
+    f = call.func
+    if isinstance(f, ast.Attribute) and isinstance(f.value, ast.Name) and f.value.id in ("self", "cls"):
+        q = mod.qual_of(fn)
+        cls = q.rsplit(".", 1)[0] if "." in q else None
+        while cls and not isinstance(mod.defs.get(cls), ast.ClassDef):
+            cls = cls.rsplit(".", 1)[0] if "." in cls else None
+        if cls:
+            r = ClassScope(mod, cls).resolve(f.attr)
+            if r is not None:
+                static = any(norm(d) == "staticmethod" for d in r[1].decorator_list)
+                return r[1], not static
+        return None
+    if isinstance(f, ast.Name) and f.id not in local_defs(fn) and f.id not in _all_params(fn):
+        d = mod.defs.get(f.id)
+        if isinstance(d, (ast.FunctionDef, ast.AsyncFunctionDef)):
+            return d, False  # type: ignore[return-value]
+    return None
+
+
+def text_tails(e: Optional[ast.AST], fn: ast.AST, mod: Module, depth: int = 5, env: Optional[dict] = None) -> Optional[list[str]]:
+    """the constant texts a string-valued expression can END with (after its last dynamic part), or None when its end is
+    run-time text.  Names are resolved through every plain binding of the function; a list is resolved to the elements
+    it is displayed with and the arguments of the `.append(...)` calls on it; a call of a method of the same class (or of a
+    function of the module) to the expressions it returns, a parameter of such a callee standing for the argument it was
+    called with (`env`: parameter -> (argument, calling function, its env))."""
+    if e is None or depth < 0:
+        return None
+    if isinstance(e, ast.Call):
+        r = callee_of(e, fn, mod)
+        if r is None:
+            return None
+        callee, bound = r
+        if any(isinstance(x, (ast.Yield, ast.YieldFrom)) for x in own_nodes(callee)):
+            return None
+        rets = [x for x in own_nodes(callee) if isinstance(x, ast.Return)]
+        if not rets or any(x.value is None for x in rets):
+            return None
+        inner = {}
+        for p in _all_params(callee):
+            a = argument_for(callee, e, p, bound)
+            if a is not None:
+                inner[p] = (a, fn, env)
+        out = []
+        for x in rets:
+            t = text_tails(x.value, callee, mod, depth - 1, inner)
+            if t is None:
+                return None
+            out += t
+        return out
+    if isinstance(e, ast.Constant) and isinstance(e.value, str):
+        return [e.value]
+    if isinstance(e, ast.BinOp) and isinstance(e.op, ast.Mod):
+        ts = text_tails(e.left, fn, mod, depth, env)
+        if ts is None:
+            return None
+        out = []
+        for t in ts:
+            sp = placeholders(t)
+            rest = t[sp[-1][1]:] if sp else t
+            if not rest.strip():
+                return None  # ends with a conversion: the end is whatever is formatted in
+            out.append(rest)
+        return out
+    if isinstance(e, ast.BinOp) and isinstance(e.op, ast.Add):
+        r = text_tails(e.right, fn, mod, depth, env)
+        if r is not None and all(not t.strip() for t in r):
+            l = text_tails(e.left, fn, mod, depth, env)
+            return None if l is None else [a + b for a in l for b in r]
+        return r
+    if isinstance(e, ast.JoinedStr):
+        if e.values and isinstance(e.values[-1], ast.Constant) and str(e.values[-1].value).strip():
+            return [str(e.values[-1].value)]
+        return None
+    if isinstance(e, (ast.List, ast.Tuple)):
+        out = []
+        for x in e.elts:
+            t = text_tails(x, fn, mod, depth, env)
+            if t is None:
+                return None
+            out += t
+        return out
+    if isinstance(e, ast.Name):
+        ds = local_defs(fn).get(e.id, [])
+        if not ds:
+            if env and e.id in env:  # a parameter of a callee that is being followed: what the caller passed
+                a, cfn, cenv = env[e.id]
+                return text_tails(a, cfn, mod, depth - 1, cenv)
+            return None  # a parameter (or a global): run-time text
+        out = []
+        for _st, v in ds:
+            t = text_tails(v, fn, mod, depth - 1, env)
+            if t is None:
+                return None
+            out += t
+        for n in own_nodes(fn):
+            if isinstance(n, ast.Call) and isinstance(n.func, ast.Attribute) and n.func.attr in ("append", "extend", "insert") \
+                    and isinstance(n.func.value, ast.Name) and n.func.value.id == e.id and n.args:
+                t = text_tails(n.args[-1], fn, mod, depth - 1, env)
+                if t is None:
+                    return None
+                out += t
+        return out
+    return None
+
+
+def annotation_alternatives(ann: Optional[ast.AST]) -> list[str]:
+    """the alternatives of a parameter annotation, by their last name component: Union[A, b.C] / A | C / Optional[A]
+    (None is dropped); [] when there is no annotation or it is not a plain union of names"""
+    if ann is None:
+        return []
+    if isinstance(ann, ast.Constant) and isinstance(ann.value, str):
+        try:
+            ann = ast.parse(ann.value, mode="eval").body
+        except SyntaxError:
+            return []
+    if isinstance(ann, ast.BinOp) and isinstance(ann.op, ast.BitOr):
+        return annotation_alternatives(ann.left) + annotation_alternatives(ann.right)
+    if isinstance(ann, ast.Subscript):
+        head = ann.value.attr if isinstance(ann.value, ast.Attribute) else getattr(ann.value, "id", "")
+        if head in ("Union", "Optional"):
+            elts = ann.slice.elts if isinstance(ann.slice, ast.Tuple) else [ann.slice]
+            out: list[str] = []
+            for x in elts:
+                out += annotation_alternatives(x)
+            return out
+        return [head] if head else []
+    if isinstance(ann, ast.Constant) and ann.value is None:
+        return []
+    if isinstance(ann, ast.Name):
+        return [ann.id]
+    if isinstance(ann, ast.Attribute):
+        return [ann.attr]
+    return []
+
+
+def isinstance_test(test: ast.AST) -> Optional[tuple[str, list[str], bool]]:
+    """(tested name, class names, polarity) of `isinstance(x, C)` / `isinstance(x, (C, D))` / `not isinstance(...)`"""
+    pol = True
+    while isinstance(test, ast.UnaryOp) and isinstance(test.op, ast.Not):
+        test, pol = test.operand, not pol
+    if isinstance(test, ast.Call) and isinstance(test.func, ast.Name) and test.func.id == "isinstance" and len(test.args) == 2 and isinstance(test.args[0], ast.Name):
+        c = test.args[1]
+        cs = list(c.elts) if isinstance(c, ast.Tuple) else [c]
+        return test.args[0].id, [x.attr if isinstance(x, ast.Attribute) else getattr(x, "id", "?") for x in cs], pol
+    return None
+
+
+def under_type_checking(mod: Module, node: ast.AST, stop: ast.AST) -> bool:
+    """inside `if TYPE_CHECKING:` (never executed)"""
+    for cond, kind in branch_of(mod, node, stop):
+        if isinstance(cond, ast.If) and kind == "body" and norm(cond.test) in ("TYPE_CHECKING", "typing.TYPE_CHECKING"):
+            return True
+    return False
+
+
+def pattern_of_receiver(mod: Module, recv: ast.AST) -> Optional[tuple[str, int]]:
+    """(pattern text, flags) of the compiled regular expression a receiver `NAME` / `self.NAME` / `Class.NAME` denotes"""
+    nm = recv.id if isinstance(recv, ast.Name) else (recv.attr if isinstance(recv, ast.Attribute) else None)
+    if nm is None:
+        return None
+    for q, _call, pat, flags in compiled_patterns(mod):
+        if q.rsplit(".", 1)[-1] == nm:
+            return pat, flags
+    return None
+
+
+def sample_search(pat: str, flags: int, text: str) -> bool:
+    """does the (constant) regular expression find a match in the sample text?  The pattern is data read from the source;
+    compiling it runs nothing of the analysed library."""
+    try:
+        return re.compile(pat, flags).search(text) is not None
+    except re.error as e:
+        raise AnalysisError("regular expression does not compile: %s (%s)" % (pat[:60], e)) from None
+
+
+# ======================================================================================================================
+# fourth part: anchors by ROLE instead of by private name (the call that reaches the connector, the attribute commit()
+# sends, the method whose result the writers append to), entry points with the private helpers they reach (one obligation
+# per entry point and site, however the code is split into helpers), and feasible paths under an assumption on the
+# store's public switches
+# ======================================================================================================================
+
+
+def is_private(name: str) -> bool:
+    """a name the class keeps to itself (single leading underscore or mangled), not a special method"""
+    return name.startswith("_") and not (name.startswith("__") and name.endswith("__"))
+
+
+def self_calls(fn: ast.AST) -> list[ast.Call]:
+    """self.<name>(...) calls anywhere in fn (nested functions and lambdas included), in source order"""
+    out = [n for n in own_nodes(fn, include_nested=True) if isinstance(n, ast.Call) and isinstance(n.func, ast.Attribute)
+           and isinstance(n.func.value, ast.Name) and n.func.value.id == "self"]
+    return sorted(out, key=lambda n: (n.lineno, n.col_offset))
+
+
+def params_of(fn: ast.AST) -> list[str]:
+    a = fn.args  # type: ignore[attr-defined]
+    return [x.arg for x in a.posonlyargs + a.args]
+
+
+def argument_for(fn: ast.AST, call: ast.Call, param: str, bound: bool = True) -> Optional[ast.expr]:
+    """the expression a call passes for the parameter `param` of fn (`bound`: the call is `recv.m(..)`, so the first
+    parameter is the receiver); None when it is not passed (default) or passed through * / **"""
+    ps = params_of(fn)
+    if param not in ps and param not in [x.arg for x in fn.args.kwonlyargs]:  # type: ignore[attr-defined]
+        return None
+    for k in call.keywords:
+        if k.arg == param:
+            return k.value
+    if param not in ps:
+        return None
+    i = ps.index(param) - (1 if bound else 0)
+    if i < 0 or i >= len(call.args) or any(isinstance(a, ast.Starred) for a in call.args[: i + 1]):
+        return None
+    return call.args[i]
+
+
+def resolve_local(e: ast.AST, fn: ast.AST, depth: int = 4) -> ast.AST:
+    """a local name that has exactly one plain binding in fn stands for the bound expression"""
+    while depth > 0 and isinstance(e, ast.Name):
+        ds = local_defs(fn).get(e.id, [])
+        if len(ds) != 1 or ds[0][1] is None or e.id in _all_params(fn):
+            break
+        e = ds[0][1]
+        depth -= 1
+    return e
+
+
+def _all_params(fn: ast.AST) -> set[str]:
+    a = fn.args  # type: ignore[attr-defined]
+    return {x.arg for x in a.posonlyargs + a.args + a.kwonlyargs + ([a.vararg] if a.vararg else []) + ([a.kwarg] if a.kwarg else [])}
+
+
+class ClassScope:
+    """The methods of one class of a module as seen from `self`: own methods first, then those of the base classes that are
+    defined in the same module (by name, depth first).  `scopes()` lists, for every ENTRY POINT of the class (a method
+    that is not a private helper called from another method), the entry point itself and every private helper it reaches
+    through `self.<helper>(..)` calls, with the chain of calls that leads there - so that a rule states one obligation per
+    (entry point, site) and the count does not depend on how the code is cut into helpers."""
+
+    def __init__(self, mod: Module, cls: str):
+        self.mod, self.cls = mod, cls
+        self.lineage: list[str] = []
+
+        def add(c: str) -> None:
+            if c in self.lineage or not isinstance(mod.defs.get(c), ast.ClassDef):
+                return
+            self.lineage.append(c)
+            for b in mod.defs[c].bases:  # type: ignore[attr-defined]
+                if isinstance(b, ast.Name):
+                    add(b.id)
+
+        add(cls)
+        self._methods = {c: mod.methods(c) for c in self.lineage}
+        self.own = self._methods.get(cls, {})
+        self._called: Optional[set[str]] = None
+
+    def resolve(self, name: str) -> Optional[tuple[str, ast.FunctionDef]]:
+        for c in self.lineage:
+            f = self._methods[c].get(name)
+            if f is not None:
+                return c, f
+        return None
+
+    def owner_of(self, fn: ast.AST) -> Optional[str]:
+        for c in self.lineage:
+            if any(f is fn for f in self._methods[c].values()):
+                return c
+        return None
+
+    def called_from_self(self) -> set[str]:
+        """names called as self.<name>(..) from some method of some class of the module"""
+        if self._called is None:
+            self._called = set()
+            for q, n in self.mod.defs.items():
+                if isinstance(n, ast.ClassDef):
+                    for f in self.mod.methods(q).values():
+                        self._called |= {c.func.attr for c in self_calls(f)}  # type: ignore[attr-defined]
+        return self._called
+
+    def is_helper(self, name: str) -> bool:
+        return is_private(name) and name in self.called_from_self()
+
+    def reached_helpers(self, fn: ast.AST) -> list[tuple[str, str, ast.FunctionDef, list[tuple[ast.AST, ast.Call]]]]:
+        """(class, name, function, chain of (caller, call)) of every private helper fn reaches through self-calls"""
+        out: list[tuple[str, str, ast.FunctionDef, list[tuple[ast.AST, ast.Call]]]] = []
+        seen = {id(fn)}
+        work: list[tuple[ast.AST, list[tuple[ast.AST, ast.Call]]]] = [(fn, [])]
+        while work:
+            cur, chain = work.pop(0)
+            for c in self_calls(cur):
+                nm = c.func.attr  # type: ignore[attr-defined]
+                if not is_private(nm):
+                    continue
+                r = self.resolve(nm)
+                if r is None or id(r[1]) in seen:
+                    continue
+                seen.add(id(r[1]))
+                ch = chain + [(cur, c)]
+                out.append((r[0], nm, r[1], ch))
+                work.append((r[1], ch))
+        return out
+
+    def scopes(self) -> Iterator[tuple[str, str, ast.FunctionDef, list[tuple[ast.AST, ast.Call]]]]:
+        """(entry point, class that defines the function, function, chain) - the entry points of this class with the helpers
+        they reach; a method that no entry point reaches is listed as an entry point of its own (nothing is skipped)"""
+        covered: set[int] = set()
+        rows = []
+        for nm, f in self.own.items():
+            if self.is_helper(nm):
+                continue
+            rows.append((nm, self.cls, f, []))
+            covered.add(id(f))
+            for hc, _hn, hf, ch in self.reached_helpers(f):
+                rows.append((nm, hc, hf, ch))
+                covered.add(id(hf))
+        for nm, f in self.own.items():
+            if id(f) not in covered:
+                rows.append((nm, self.cls, f, []))
+                for hc, _hn, hf, ch in self.reached_helpers(f):
+                    if id(hf) not in covered:
+                        rows.append((nm, hc, hf, ch))
+        yield from rows
+
+
+def via(chain: list[tuple[ast.AST, ast.Call]]) -> str:
+    """' (in <helper>, reached through self.a() -> self.b())' for the detail text of an obligation met in a helper"""
+    if not chain:
+        return ""
+    return " (reached through %s)" % " -> ".join("self.%s()" % c.func.attr for _f, c in chain)  # type: ignore[attr-defined]
+
+
+def head_exprs(st: ast.AST) -> list[ast.AST]:
+    """what a CFG node of the statement evaluates itself (the bodies of compound statements are nodes of their own)"""
+    if isinstance(st, (ast.If, ast.While)):
+        return [st.test]
+    if isinstance(st, (ast.For, ast.AsyncFor)):
+        return [st.iter]
+    if isinstance(st, (ast.With, ast.AsyncWith)):
+        return [i.context_expr for i in st.items]
+    if isinstance(st, ast.Match):
+        return [st.subject]
+    if isinstance(st, (ast.FunctionDef, ast.AsyncFunctionDef, ast.ClassDef, ast.Try, ast.ExceptHandler)):
+        return []
+    return [st]
+
+
+def unconditional_calls(st: ast.AST) -> Iterator[ast.Call]:
+    """the calls that are evaluated whenever the statement (the head of a compound statement) is: not those in a branch of a
+    conditional expression, behind `and` / `or`, in a lambda, or in the element / condition of a comprehension"""
+
+    def visit(e: ast.AST) -> Iterator[ast.Call]:
+        if isinstance(e, (ast.Lambda, ast.FunctionDef, ast.AsyncFunctionDef, ast.ClassDef)):
+            return
+        if isinstance(e, ast.IfExp):
+            yield from visit(e.test)
+            return
+        if isinstance(e, ast.BoolOp):
+            yield from visit(e.values[0])
+            return
+        if isinstance(e, (ast.ListComp, ast.SetComp, ast.GeneratorExp, ast.DictComp)):
+            yield from visit(e.generators[0].iter)
+            return
+        if isinstance(e, ast.Call):
+            yield e
+        for c in ast.iter_child_nodes(e):
+            yield from visit(c)
+
+    for h in head_exprs(st):
+        yield from visit(h)
+
+
+def feasible_reach(g, src: int, avoid: Iterable[int], env: dict[str, Optional[bool]]) -> set[int]:
+    """CFG nodes reachable from src on paths that avoid `avoid` and are FEASIBLE under the assumption `env` (truth of atoms by
+    their normalised text, three-valued): the branch of a test that the assumption decides the other way is not taken"""
+    from .cfg import eval3
+
+    av = set(avoid)
+    seen: set[int] = set()
+    stack = [src]
+    while stack:
+        n = stack.pop()
+        node = g.nodes[n]
+        verdict = None
+        if node.kind == "test" and node.ast is not None and hasattr(node.ast, "test"):
+            verdict = eval3(node.ast.test, env)
+        for m in g.succ[n]:
+            lab = g.edge_label.get((n, m), "")
+            if verdict is not None and lab != "exc" and (lab == "true") != verdict:
+                continue
+            if m in av or m in seen:
+                continue
+            seen.add(m)
+            stack.append(m)
+    return seen
+
+
+class StoreRoles:
+    """Who does what in the SPARQL store classes, found from the public names (the two classes, the connector class,
+    commit / rollback) and the flow of values, not from the private names the work happens to be delegated to:
+
+    * a call REACHES THE CONNECTOR's `query` / `update` when it calls that method of the connector class (by name of the
+      class, through super() above SPARQLStore, or by its resolved type), or a private method of the store that does
+      (a 'carrier', transitively);
+    * the QUEUE is the attribute of self whose elements commit() joins and sends;
+    * an ACCESSOR is a private method whose result a method appends to / extends (the way writers get at the queue)."""
+
+    def __init__(self, repo, mod: Module, base_cls: str = "SPARQLStore", upd_cls: str = "SPARQLUpdateStore"):
+        self.repo, self.mod, self.base_cls, self.upd_cls = repo, mod, base_cls, upd_cls
+        self.scope_base = ClassScope(mod, base_cls)
+        self.scope_upd = ClassScope(mod, upd_cls)
+        self.base = self.scope_base.own
+        self.upd = self.scope_upd.own
+        self.connectors = imported_as(mod, "sparqlconnector", "SPARQLConnector") | {"SPARQLConnector"}
+        self._carriers: dict[str, dict[str, ast.FunctionDef]] = {}
+        self._queue: Optional[str] = None
+
+    # -- the connector
+    def is_primitive(self, call: ast.Call, meth: str, in_cls: Optional[str]) -> bool:
+        f = call.func
+        if not (isinstance(f, ast.Attribute) and f.attr == meth):
+            return False
+        recv = f.value
+        if isinstance(recv, ast.Name) and recv.id in self.connectors:
+            return True
+        if isinstance(recv, ast.Call) and isinstance(recv.func, ast.Name) and recv.func.id == "super":
+            if recv.args:
+                return norm(recv.args[0]) == self.base_cls  # the class after SPARQLStore in the resolution order
+            return in_cls == self.base_cls
+        return any(c.endswith("sparqlconnector.SPARQLConnector." + meth) for c in self.repo.typed.callees(self.mod.name, call))
+
+    def carriers(self, meth: str) -> dict[str, ast.FunctionDef]:
+        """private methods (as seen from SPARQLUpdateStore) that reach the connector's `meth`, directly or through another"""
+        if meth not in self._carriers:
+            found: dict[str, ast.FunctionDef] = {}
+            changed = True
+            while changed:
+                changed = False
+                for c in self.scope_upd.lineage:
+                    for nm, f in self.scope_upd._methods[c].items():
+                        if nm in found or not is_private(nm) or self.scope_upd.resolve(nm)[1] is not f:  # type: ignore[index]
+                            continue
+                        if self._sites(f, c, meth, found):
+                            found[nm] = f
+                            changed = True
+            self._carriers[meth] = found
+        return self._carriers[meth]
+
+    def _sites(self, fn: ast.AST, in_cls: Optional[str], meth: str, carriers: dict[str, ast.FunctionDef]) -> list[ast.Call]:
+        out = []
+        for n in own_nodes(fn, include_nested=True):
+            if isinstance(n, ast.Call) and (self.is_primitive(n, meth, in_cls) or (
+                    isinstance(n.func, ast.Attribute) and isinstance(n.func.value, ast.Name) and n.func.value.id == "self" and n.func.attr in carriers)):
+                out.append(n)
+        return sorted(out, key=lambda n: (n.lineno, n.col_offset))
+
+    def sites(self, fn: ast.AST, in_cls: Optional[str], meth: str) -> list[ast.Call]:
+        """the calls in fn that reach the connector's `meth` without going through a public method of the store"""
+        return self._sites(fn, in_cls, meth, self.carriers(meth))
+
+    def sent_text(self, call: ast.Call, meth: str = "update") -> Optional[ast.expr]:
+        """the argument of a site that holds the text for the endpoint"""
+        f = call.func
+        if isinstance(f, ast.Attribute) and isinstance(f.value, ast.Name) and f.value.id == "self" and f.attr in self.carriers(meth):
+            h = self.carriers(meth)[f.attr]
+            inner = self._sites(h, self.scope_upd.owner_of(h), meth, self.carriers(meth))
+            ps = [p for p in params_of(h)[1:]]
+            for s in inner:
+                t = self.sent_text(s, meth)
+                if isinstance(t, ast.Name) and t.id in ps and not local_defs(h).get(t.id):
+                    return argument_for(h, call, t.id)
+            raise AnalysisError("%s: the private method that reaches the connector's %s() does not pass one of its parameters on as the text" % (f.attr, meth))
+        if isinstance(f, ast.Attribute) and isinstance(f.value, ast.Name) and f.value.id in self.connectors:
+            rest = call.args[1:]
+        else:
+            rest = call.args
+        if rest:
+            return rest[0]
+        return next((k.value for k in call.keywords if k.arg in ("query", "update", "text")), None)
+
+    # -- the queue
+    def _self_attrs(self, e: ast.AST, fn: ast.AST) -> set[str]:
+        """the attributes of self that e reads (not calls), local names standing for what they are bound to"""
+        out: set[str] = set()
+        called = {id(c.func) for c in ast.walk(e) if isinstance(c, ast.Call)}
+        for x in ast.walk(e):
+            y = resolve_local(x, fn) if isinstance(x, ast.Name) else x
+            if isinstance(y, ast.Attribute) and isinstance(y.value, ast.Name) and y.value.id == "self" and id(y) not in called:
+                out.add(norm(y))
+        return out
+
+    def commit_sends(self) -> list[tuple[ast.Call, Optional[ast.AST]]]:
+        """(site in commit() that reaches the connector's update(), the expression that is sent - a local name that is bound
+        once standing for what it is bound to)"""
+        cm = self.upd.get("commit")
+        if cm is None:
+            raise AnalysisError("SPARQLUpdateStore.commit vanished")
+        out = []
+        for s in self.sites(cm, self.upd_cls, "update"):
+            t = self.sent_text(s)
+            out.append((s, resolve_local(t, cm) if t is not None else None))
+        return out
+
+    def queue(self) -> str:
+        """normalised text of the QUEUE attribute: the attribute of self that commit() sends and rollback() re-binds (if one of
+        the two is broken, what the other says)"""
+        if self._queue is None:
+            cm, rb = self.upd.get("commit"), self.upd.get("rollback")
+            if cm is None or rb is None:
+                raise AnalysisError("SPARQLUpdateStore.commit / rollback vanished")
+            sent: set[str] = set()
+            for _s, t in self.commit_sends():
+                if t is not None:
+                    sent |= self._self_attrs(t, cm)
+            cleared = {norm(t) for n in own_nodes(rb) if isinstance(n, (ast.Assign, ast.AnnAssign, ast.AugAssign))
+                       for t in (n.targets if isinstance(n, ast.Assign) else [n.target])
+                       if isinstance(t, ast.Attribute) and isinstance(t.value, ast.Name) and t.value.id == "self"}
+            cleared |= {norm(c.func.value) for c in own_nodes(rb) if isinstance(c, ast.Call) and isinstance(c.func, ast.Attribute) and c.func.attr == "clear"
+                        and isinstance(c.func.value, ast.Attribute) and norm(c.func.value).startswith("self.")}
+            read = {norm(n) for n in own_nodes(cm) if isinstance(n, ast.Attribute) and isinstance(n.value, ast.Name) and n.value.id == "self"}
+            for cand in (sent & cleared, sent, cleared & read):
+                if len(cand) == 1:
+                    self._queue = next(iter(cand))
+                    break
+            else:
+                raise AnalysisError("SPARQLUpdateStore: the attribute that holds the pending updates cannot be told from commit() (sends %s) and "
+                                    "rollback() (re-binds %s)" % (sorted(sent), sorted(cleared)))
+        return self._queue
+
+    @property
+    def qattr(self) -> str:
+        return self.queue()
+
+    def separator(self) -> Optional[str]:
+        """the constant text commit() joins the pending updates with (None: not one visible constant)"""
+        seps = set()
+        for _s, t in self.commit_sends():
+            if isinstance(t, ast.Call) and isinstance(t.func, ast.Attribute) and t.func.attr == "join":
+                seps.add(StrEnv(self.mod, self.upd_cls).value(t.func.value))
+        if len(seps) != 1:
+            return None
+        v = seps.pop()
+        return v if isinstance(v, str) else None
+
+    def accessor_of(self, e: ast.AST, fn: ast.AST) -> Optional[str]:
+        """name of the private method when e is `self.<private method>()`, or a local bound to such a call only"""
+        if isinstance(e, ast.Name):
+            ds = local_defs(fn).get(e.id, [])
+            if not ds or e.id in _all_params(fn) or any(v is None or isinstance(v, ast.Name) for _s, v in ds):
+                return None
+            names = {self.accessor_of(v, fn) for _s, v in ds}
+            return names.pop() if len(names) == 1 else None
+        if isinstance(e, ast.Call) and not e.args and not e.keywords and isinstance(e.func, ast.Attribute) and isinstance(e.func.value, ast.Name) \
+                and e.func.value.id == "self" and is_private(e.func.attr) and self.scope_upd.resolve(e.func.attr) is not None:
+            return e.func.attr
+        return None
+
+    def accessors(self) -> dict[str, ast.FunctionDef]:
+        """the private methods whose result some method of SPARQLUpdateStore appends to / extends"""
+        out: dict[str, ast.FunctionDef] = {}
+        for f in self.upd.values():
+            for n in own_nodes(f, include_nested=True):
+                recv = None
+                if isinstance(n, ast.Call) and isinstance(n.func, ast.Attribute) and n.func.attr in ("append", "extend", "insert"):
+                    recv = n.func.value
+                elif isinstance(n, ast.AugAssign) and isinstance(n.op, ast.Add):
+                    recv = n.target
+                nm = self.accessor_of(recv, f) if recv is not None else None
+                if nm is not None:
+                    out[nm] = self.scope_upd.resolve(nm)[1]  # type: ignore[index]
+        return out
+
+    def is_queue(self, e: ast.AST, fn: ast.AST) -> bool:
+        """does e denote the live queue: `self.<accessor>()`, the queue attribute itself, or a local bound to one of them only"""
+        if self.accessor_of(e, fn) in self.accessors() and self.accessor_of(e, fn) is not None:
+            return True
+        if isinstance(e, ast.Attribute) and norm(e) == self.qattr:
+            return True
+        if isinstance(e, ast.Name) and e.id not in _all_params(fn):
+            ds = local_defs(fn).get(e.id, [])
+            return bool(ds) and all(v is not None and not isinstance(v, ast.Name) and self.is_queue(v, fn) for _s, v in ds)
+        return False
+
+    def enqueues(self, fn: ast.AST) -> list[ast.AST]:
+        """the statements / calls of fn that add to the queue: <queue>.append(..) / .extend(..), <queue> += .."""
+        out: list[ast.AST] = []
+        for n in own_nodes(fn):
+            if isinstance(n, ast.Call) and isinstance(n.func, ast.Attribute) and n.func.attr in ("append", "extend") and self.is_queue(n.func.value, fn):
+                out.append(n)
+            elif isinstance(n, ast.AugAssign) and isinstance(n.op, ast.Add) and self.is_queue(n.target, fn):
+                out.append(n)
+        return sorted(out, key=lambda n: (n.lineno, n.col_offset))
